@@ -152,7 +152,7 @@ func rulesC20(c *Ctx) {
 					if !ok || as.Tok != token.ADD_ASSIGN || !f.IsField(as.Lhs[0], nBytes) {
 						return false
 					}
-					lc, ok := ast.Unparen(as.Rhs[0]).(*ast.CallExpr)
+					lc, ok := ast.Unparen(f.valueOf(as.Rhs[0])).(*ast.CallExpr) // (n := len(d) … nBytes += n is the same)
 					return ok && f.BuiltinName(lc) == "len" && sameExpr(lc.Args[0], d)
 				}
 				okp, _ := g.PostDominatedBy(v, isAdd)
@@ -173,10 +173,14 @@ func rulesC20(c *Ctx) {
 				nRem++
 				v := g.VertexOf(call)
 				var r types.Object
+				okp := false
 				if as, ok := g.Node(v).(*ast.AssignStmt); ok {
 					r = f.ObjOf(as.Lhs[0])
+					// s.nBytes -= dl.removeFirst(): removal and accounting in one statement
+					if as.Tok == token.SUB_ASSIGN && len(as.Lhs) == 1 && len(as.Rhs) == 1 && f.IsField(as.Lhs[0], nBytes) && ast.Unparen(as.Rhs[0]) == ast.Expr(call) {
+						okp, r = true, nil
+					}
 				}
-				okp := false
 				if r != nil {
 					okp, _ = g.MustPass(v, append(append([]int{}, g.Exits...), v), func(u int) bool {
 						as, ok := g.Node(u).(*ast.AssignStmt)
@@ -304,11 +308,50 @@ func rulesC20(c *Ctx) {
 			if !ok {
 				return
 			}
-			if m, k, isIx := indexOf(rs.X); isIx && sc.IsField(m, storeF) && len(sc.NonRecvParams()) == 2 && sc.ObjOf(k) == types.Object(sc.NonRecvParams()[1]) {
+			// (the session's table may first be taken into a local: streams, ok := s.store[id])
+			src := rs.X
+			if id, isID := ast.Unparen(src).(*ast.Ident); isID {
+				for _, w := range Writes(sc.Body, false) {
+					if sc.ObjOf(w.LHS) == sc.ObjOf(id) && w.Stmt != ast.Node(rs) {
+						if as, ok := w.Stmt.(*ast.AssignStmt); ok && len(as.Rhs) == 1 {
+							src = as.Rhs[0]
+						}
+					}
+				}
+			}
+			if m, k, isIx := indexOf(src); isIx && sc.IsField(m, storeF) && len(sc.NonRecvParams()) == 2 && sc.ObjOf(k) == types.Object(sc.NonRecvParams()[1]) {
 				for _, w := range Writes(rs.Body, false) {
-					if as, ok := w.Stmt.(*ast.AssignStmt); ok && as.Tok == token.SUB_ASSIGN && sc.IsField(w.LHS, nBytes) {
-						if s, ok := ast.Unparen(as.Rhs[0]).(*ast.SelectorExpr); ok && sc.IsField(s, sizeF) && sc.ObjOf(s.X) == sc.ObjOf(rs.Value) {
-							okSub = delV >= 0 && sg.Dominates(sg.VertexOf(rs.X), delV)
+					as, ok := w.Stmt.(*ast.AssignStmt)
+					if !ok || len(as.Rhs) != 1 {
+						continue
+					}
+					s, isSel := ast.Unparen(as.Rhs[0]).(*ast.SelectorExpr)
+					if !isSel || !sc.IsField(s, sizeF) || sc.ObjOf(s.X) != sc.ObjOf(rs.Value) {
+						continue
+					}
+					if as.Tok == token.SUB_ASSIGN && sc.IsField(w.LHS, nBytes) {
+						okSub = delV >= 0 && sg.Dominates(sg.VertexOf(rs.X), delV)
+					}
+					// the same through a tally: total starts at 0, gains every list's size in this loop and nothing else, and is
+					// what nBytes loses afterwards
+					if tally := sc.ObjOf(w.LHS); as.Tok == token.ADD_ASSIGN && tally != nil {
+						onlyHere := true
+						for _, w2 := range Writes(sc.Body, true) {
+							if sc.ObjOf(w2.LHS) != tally || w2.Stmt == w.Stmt {
+								continue
+							}
+							if w2.RHS == nil && w2.Tok == token.DEFINE {
+								continue // var total int
+							}
+							if z, isZ := sc.ConstInt(w2.RHS); w2.RHS == nil || !isZ || z != 0 || (w2.Tok != token.DEFINE && w2.Tok != token.ASSIGN) || sc.insideLoop(w2.Stmt) {
+								onlyHere = false
+							}
+						}
+						for _, w3 := range Writes(sc.Body, false) {
+							if as3, ok := w3.Stmt.(*ast.AssignStmt); ok && as3.Tok == token.SUB_ASSIGN && sc.IsField(w3.LHS, nBytes) && len(as3.Rhs) == 1 && sc.ObjOf(as3.Rhs[0]) == tally && onlyHere {
+								sv := sg.VertexOf(as3)
+								okSub = delV >= 0 && sg.ReachableFrom(sg.VertexOf(rs.X))[sv] && (sg.Dominates(sv, delV) || sg.Dominates(sg.VertexOf(rs.X), delV))
+							}
 						}
 					}
 				}
